@@ -91,13 +91,19 @@ def step (s : St) (toks : List String) : St × String :=
     if !s.ready then (s, "bad-op") else
     match i.toNat?, parseVotes vs with
     | some i, some vs =>
-      if i ≥ s.w.accts.length || vs.any (fun v => v.1 ≥ 8) then (s, "bad-op") else runTx s (Tx.deleg i vs)
+      if i ≥ s.w.accts.length || vs.any (fun v => v.1 ≥ 13) then (s, "bad-op") else runTx s (Tx.deleg i vs)
     | _, _ => (s, "bad-op")
   | ["bond", i, vs] =>
     if !s.ready then (s, "bad-op") else
     match i.toNat?, parseVotes vs with
     | some i, some vs =>
-      if i ≥ s.w.accts.length || vs.any (fun v => v.1 ≥ 8) then (s, "bad-op") else runTx s (Tx.bond i vs (mayBond i vs))
+      if i ≥ s.w.accts.length || vs.any (fun v => v.1 ≥ 13) then (s, "bad-op") else runTx s (Tx.bond i vs (mayBond i vs))
+    | _, _ => (s, "bad-op")
+  | ["regprep", i, fee] =>
+    -- actor i (one of the five fresh accounts, vote target 8+i) registers as a P-Rep
+    if !s.ready then (s, "bad-op") else
+    match i.toNat?, fee.toInt? with
+    | some i, some fee => if i ≥ 5 || i ≥ s.w.accts.length then (s, "bad-op") else runTx s (Tx.regPRep i (8 + i) fee)
     | _, _ => (s, "bad-op")
   | ["xfer", i, j, v] =>
     if !s.ready then (s, "bad-op") else
